@@ -70,6 +70,7 @@ type c15schema struct {
 }
 
 var c15seq int
+var c15withDefaults bool
 
 func c15genKids(r *core.Rng, sc *c15schema, ts []c15type, depth int, n int, mod string) []*gen.SNode {
 	var out []*gen.SNode
@@ -85,7 +86,12 @@ func c15genKids(r *core.Rng, sc *c15schema, ts []c15type, depth int, n int, mod 
 			if r.Chance(20) && t.name != "empty" {
 				sc.lists[name] = true
 			}
-			out = append(out, &gen.SNode{Name: name, Kind: "leaf", Type: t.yang})
+			lf := &gen.SNode{Name: name, Kind: "leaf", Type: t.yang}
+			if c15withDefaults && !sc.lists[name] && r.Chance(30) && (t.name == "string" || t.name == "int32" || t.name == "enum") {
+				d := map[string]string{"string": "dflt " + name, "int32": "17", "enum": "two"}[t.name]
+				lf.Default = &d
+			}
+			out = append(out, lf)
 		case k < 8:
 			name := fmt.Sprintf("c%d", c15seq)
 			sc.mod[name] = mod
@@ -115,7 +121,11 @@ func c15yang(sc *c15schema, kids []*gen.SNode, indent string) string {
 			if sc.lists[s.Name] {
 				kw = "leaf-list"
 			}
-			fmt.Fprintf(&b, "%s%s %s { type %s%s }\n", indent, kw, s.Name, s.Type, map[bool]string{true: "", false: ";"}[strings.HasSuffix(s.Type, "}")])
+			dflt := ""
+			if s.Default != nil {
+				dflt = fmt.Sprintf(" default \"%s\";", *s.Default)
+			}
+			fmt.Fprintf(&b, "%s%s %s { type %s%s%s }\n", indent, kw, s.Name, s.Type, map[bool]string{true: "", false: ";"}[strings.HasSuffix(s.Type, "}")], dflt)
 		case "cont":
 			fmt.Fprintf(&b, "%scontainer %s {\n%s%s}\n", indent, s.Name, c15yang(sc, s.Kids, indent+"  "), indent)
 		case "list":
